@@ -52,8 +52,10 @@ def run(tier):
     rep = common.Report("C10", tier, "model_checking")
     known = common.Known("C10")
     nprog = 2 if tier == "quick" else 3
-    L = 3 if tier == "quick" else 4
+    L = 3
+    L_SUB = 0 if tier == "quick" else 4  # thorough: longer histories over the one-object sub-alphabet
     acts = c10k.step_kinds(nprog)
+    sub = c10k.sub_alphabet(nprog)
     with common.Workdir("c10") as wd:
         hash_diffs = []
         ref_path, ref = build_reference(wd, nprog, hash_diffs)
@@ -69,6 +71,10 @@ def run(tier):
         for first in range(len(acts)):
             body = "    return c10k.k_history(%d, R, %d)" % (first, nprog)
             conds.append(chrun.Condition("C10:history:first=%s" % "/".join(map(str, acts[first])), [("R", "List[int]")], "len(R) <= %d and all(0 <= x < %d for x in R)" % (L - 1, len(acts)), body))
+        if L_SUB:
+            for first in range(len(sub)):
+                body = "    return c10k.k_history_sub(%d, R, %d)" % (first, nprog)
+                conds.append(chrun.Condition("C10:history4:first=%s" % "/".join(map(str, acts[sub[first]])), [("R", "List[int]")], "len(R) <= %d and all(0 <= x < %d for x in R)" % (L_SUB - 1, len(sub)), body))
         chrun.precompile_repo(wd, common.REPO)
         prelude = "from vf.kernels import c10k\nc10k.load_ref(%r)\n" % ref_path
         results, counts, st = chrun.check_conditions(conds, prelude, wd, per_cond_timeout=400 if tier == "quick" else 3000, batch=1, jobs=16, label="h")
@@ -83,8 +89,12 @@ def run(tier):
                 if not args:
                     inconclusive.append(cid)
                     continue
-                first = [i for i, c in enumerate(conds) if c.cid == cid][0]
-                sel = [first] + list(args["R"])
+                if cid.startswith("C10:history4:"):
+                    first = [i for i, c in enumerate(conds) if c.cid == cid][0] - len(acts)
+                    sel = [sub[first]] + [sub[x] for x in args["R"]]
+                else:
+                    first = [i for i, c in enumerate(conds) if c.cid == cid][0]
+                    sel = [first] + list(args["R"])
                 rec = {"property": "C10", "kind": "c10", "descriptor": cid, "history": [list(acts[a]) for a in sel], "sel": sel, "nprog": nprog, "divergence": "history-diff", "what": "history %s" % [acts[a] for a in sel]}
                 rp = os.path.join(wd, "rec.json")
                 with open(rp, "w") as f:
@@ -107,7 +117,7 @@ def run(tier):
     for e in known.entries:
         rep.known("%s: %s" % (e["id"], e["what"]))
     n = len(acts)
-    total_hist = sum(n**k for k in range(0, L))
+    total_hist = n * sum(n**k for k in range(0, L)) + (len(sub) * sum(len(sub) ** k for k in range(0, L_SUB)) if L_SUB else 0)
     cov = rep.coverage
     cov["states"] = total_hist
     cov["transitions"] = total_hist * 1
@@ -118,11 +128,13 @@ def run(tier):
     cov["inconclusive"] = inconclusive
     cov["action_alphabet"] = [list(a) for a in acts]
     cov["history_length"] = L
+    cov["history_length_sub_alphabet"] = L_SUB
+    cov["sub_alphabet_size"] = len(sub)
     cov["reference_entries"] = len(ref)
     cov["reference_hash_seeds"] = HASH_SEEDS
     cov["distinct_reference_texts_per_program"] = distinct
     cov["solver_cpu_s"] = st["solver_cpu_s"]
-    cov["explanation"] = "every API history of length <= %d over an alphabet of %d concrete actions (create options object, set option/value incl. illegal values, convert with an object, convert without options, reseed random) is explored by CrossHair (the history is the symbolic variable, partitioned by its first action); conversions run concretely and are compared, after alpha-renaming of the __ol_ temporaries, with the same call made in a fresh process" % (L, n)
+    cov["explanation"] = "every API history of length <= %d over an alphabet of %d concrete actions (thorough: also every history of length <= 4 over the sub-alphabet that uses one options object) (create options object, set option/value incl. illegal values, convert with an object, convert without options, reseed random) is explored by CrossHair (the history is the symbolic variable, partitioned by its first action); conversions run concretely and are compared, after alpha-renaming of the __ol_ temporaries, with the same call made in a fresh process" % (L, n)
     cov["functions_encoded"] = ["oneliner.config.Cfg.__set__/__get__/__set_name__", "oneliner.config.Configs", "oneliner.convert_code_string (default options path and explicit options path)", "oneliner.utils.unique_id (through the reseed action)", "oneliner.presets.iter_wrapper (shared module-level AST, program 1)"]
     rep.assumptions += ["module state is made pristine at the start of every explored path by re-importing oneliner (so that one path cannot influence the next); the property itself is about state inside one history", "states = number of histories within the bound; each history is one path of the kernel", "process-level state: the reference of every (program, options) entry is computed in fresh processes under 4 hash seeds and must coincide; the histories run under the check's own hash seed", "bound: <= 2 options objects, %d programs, 3 values per option (2 legal + 1 illegal)" % nprog]
     return rep.finish()
